@@ -133,5 +133,231 @@ def filtered_range(interp, lo, hi, pred, tag, own_task=False):
     if not own_task:
         for f in filter_facts(CNT, SEL, p, N, tag):
             interp.path.assume(f)
+        # instances of the defining equations (D) at k = 0, 1: what the FIRST entries of the list are
+        for f in filter_defs(CNT, SEL, p, None) + filter_defs(CNT, SEL, p, z3.IntVal(0)) + filter_defs(CNT, SEL, p, z3.IntVal(1)):
+            interp.path.assume(f)
     lst = SymList(CNT(N), lambda k: lo_t + SEL(to_z3(k)), tag)
     return lst, dict(CNT=CNT, SEL=SEL, p=p, N=N, lo=lo_t)
+
+
+# ------------------------------------------------------------------------------------------------------------------
+# list comprehension  [x for x in L if c(x)]  over a list of symbolic length
+# ------------------------------------------------------------------------------------------------------------------
+
+def comprehension_hook(interp, elt, gens):
+    """[A] Python semantics of a filtering list comprehension `[x for x in L if c(x)]` where L is a SymList: the sub-list of
+    the elements that satisfy c, in order = (CNT(N), m -> L[SEL(m)]) of the filter theory with p(k) = c(L[k]), N = len(L)
+    (the comprehension IS the loop `for x in L: if c(x): out.append(x)`, whose invariant is proved once for
+    stabilizer.pauli_type_finder; here the characterisation INV(N) of lemma FILTER is assumed).  The test must be pure and
+    branch free: it is evaluated once at a skolem position (its own obligations are generated there) and re-evaluated
+    quietly for other positions.  Records dict(CNT, SEL, p, N) in path.ghost['comp_filters'].  Other forms -> None."""
+    import ast as _ast
+
+    if len(gens) != 1 or len(gens[0].ifs) != 1 or gens[0].is_async:
+        return None
+    g = gens[0]
+    if not (isinstance(g.target, _ast.Name) and isinstance(elt, _ast.Name) and elt.id == g.target.id):
+        return None
+    is_range = isinstance(g.iter, _ast.Call) and _ast.unparse(g.iter.func) == "range" and len(g.iter.args) == 1 \
+        and isinstance(g.iter.args[0], _ast.Name)
+    if not (isinstance(g.iter, _ast.Name) or is_range):
+        return None
+    src = interp.eval(g.iter)
+    if is_range:
+        src = from_iterable(interp, src)  # [j for j in range(n) if c(j)] with symbolic n
+    if not isinstance(src, SymList):
+        return None
+    for n in _ast.walk(g.ifs[0]):
+        # BoolOp is accepted: on symbolic operands `and`/`or` are evaluated without branching (all operands), and a
+        # concretely decided operand only removes later operands whose value cannot matter
+        if isinstance(n, (_ast.Call, _ast.NamedExpr, _ast.Lambda, _ast.ListComp, _ast.IfExp)):
+            return None
+    from . import models
+
+    models.used("[x for x in L if c(x)] over a symbolic-length list = filtered enumeration (lemma FILTER)")
+    path = interp.path
+    fr = interp.stack[-1]
+    tname = g.target.id
+    N = to_z3(src.length)
+    elem = src.elem
+    saved = len(path.pc)
+    k0 = path.fresh("ck")
+    path.assume(z3.And(k0 >= 0, k0 < N))
+    old = fr.env.get(tname)
+    fr.env[tname] = elem(k0)
+    interp.truth_term(interp.eval(g.ifs[0]))
+    del path.pc[saved:]
+
+    def p(k):
+        prev = fr.env.get(tname)
+        fr.env[tname] = elem(k)
+        path.quiet += 1
+        try:
+            return interp.truth_term(interp.eval(g.ifs[0]))
+        finally:
+            path.quiet -= 1
+            if prev is None:
+                fr.env.pop(tname, None)
+            else:
+                fr.env[tname] = prev
+
+    # freeze the predicate over the current environment (the comprehension's scope does not leak / is not re-entered)
+    env_now = dict(fr.env)
+
+    def p_frozen(k, _env=env_now):
+        cur = dict(fr.env)
+        fr.env.clear()
+        fr.env.update(_env)
+        interp.stack.append(fr)
+        try:
+            return p(k)
+        finally:
+            interp.stack.pop()
+            fr.env.clear()
+            fr.env.update(cur)
+
+    if old is None:
+        fr.env.pop(tname, None)
+    else:
+        fr.env[tname] = old
+    c = path.counter.get("compf", 0)
+    path.counter["compf"] = c + 1
+    tag = f"comp@{c}"
+    CNT, SEL = filter_symbols(tag)
+    for f in filter_facts(CNT, SEL, p_frozen, N, tag):
+        path.assume(f)
+    path.ghost.setdefault("comp_filters", []).append(dict(CNT=CNT, SEL=SEL, p=p_frozen, N=N))
+    return SymList(CNT(N), lambda m: elem(SEL(to_z3(m))), tag)
+
+
+# ------------------------------------------------------------------------------------------------------------------
+# more list operations on symbolic-length lists;  dicts of symbolic size;  max / min
+# ------------------------------------------------------------------------------------------------------------------
+
+def from_iterable(interp, v):
+    """[*v] for v a symbolic range / SymList -> SymList (None: not a symbolic-length iterable)"""
+    from .values import Opaque
+
+    if isinstance(v, SymList):
+        return v.copy()
+    if isinstance(v, Opaque) and v.tag == "range":
+        a = v.payload
+        if len(a) > 2:
+            return None
+        lo, hi = (0, a[0]) if len(a) == 1 else (a[0], a[1])
+        lo_t, hi_t = to_z3(lo), to_z3(hi)
+        n = z3.simplify(z3.If(hi_t - lo_t < 0, z3.IntVal(0), hi_t - lo_t))
+        return SymList(n, lambda k, _lo=lo_t: z3.simplify(_lo + to_z3(k)), "range")
+    return None
+
+
+def concat(a, b):
+    """list + list where at least one side has symbolic length"""
+    la = a if isinstance(a, SymList) else from_list(a)
+    lb = b if isinstance(b, SymList) else from_list(b)
+    na, ea, eb = to_z3(la.length), la.elem, lb.elem
+    return SymList(z3.simplify(na + to_z3(lb.length)),
+                   lambda k: z3.If(to_z3(k) < na, as_int_term(ea(to_z3(k))), as_int_term(eb(z3.simplify(to_z3(k) - na)))), "concat")
+
+
+class SymDict:
+    """a dict with `length` entries  key(i) -> val(i), i = 0..length-1 in insertion order; the keys are pairwise distinct
+    (obligation when it is built).  `known` remembers which key terms were handed out for which entry index."""
+
+    def __init__(self, length, key, val, label="dict"):
+        self.length = length
+        self.key = key
+        self.val = val
+        self.label = label
+        self.known = {}
+
+    def __repr__(self):
+        return f"<SymDict {self.label} len={self.length}>"
+
+
+def dictcomp_hook(interp, node):
+    """{K(i): V(i) for i in range(M)} with symbolic M -> SymDict(M, K, V); obligation: K is injective on range(M)
+    (otherwise later entries would overwrite earlier ones and the entry count would differ).  K and V must be pure and
+    branch free (evaluated once at a skolem index for their own obligations, then quietly)."""
+    import ast as _ast
+    from .values import Opaque
+
+    if len(node.generators) != 1 or node.generators[0].ifs or not isinstance(node.generators[0].target, _ast.Name):
+        return None
+    g = node.generators[0]
+    it = interp.eval(g.iter)
+    if not (isinstance(it, Opaque) and it.tag == "range" and len(it.payload) == 1):
+        return None
+    for part in (node.key, node.value):
+        for n in _ast.walk(part):
+            if isinstance(n, (_ast.Call, _ast.NamedExpr, _ast.Lambda, _ast.ListComp, _ast.IfExp, _ast.BoolOp)):
+                return None
+    from . import models
+
+    models.used("{K(i): V(i) for i in range(M)} with symbolic M = M entries K(i)->V(i) (K proved injective)")
+    path, fr = interp.path, interp.stack[-1]
+    M = to_z3(it.payload[0])
+    tname = g.target.id
+    env_now = dict(fr.env)
+
+    def at(expr, k, quiet=True):
+        cur = dict(fr.env)
+        fr.env.clear()
+        fr.env.update(env_now)
+        fr.env[tname] = k
+        if quiet:
+            path.quiet += 1
+        interp.stack.append(fr)  # the closure may be called after the function has returned: evaluate in ITS frame
+        try:
+            return interp.eval(expr)
+        finally:
+            interp.stack.pop()
+            if quiet:
+                path.quiet -= 1
+            fr.env.clear()
+            fr.env.update(cur)
+
+    saved = len(path.pc)
+    k0 = path.fresh("dk")
+    path.assume(z3.And(k0 >= 0, k0 < M))
+    at(node.key, k0, quiet=False)
+    at(node.value, k0, quiet=False)
+    del path.pc[saved:]
+    i1, i2 = path.fresh("dk"), path.fresh("dk")
+    path.oblige(interp.ob_name("dict-keys-distinct"), to_z3(at(node.key, i1)) != to_z3(at(node.key, i2)),
+                extra=[i1 >= 0, i1 < i2, i2 < M])
+    return SymDict(z3.simplify(z3.If(M < 0, z3.IntVal(0), M)), lambda k: at(node.key, to_z3(k)), lambda k: at(node.value, to_z3(k)), "dictcomp")
+
+
+def seq_extreme(interp, length, measure, which="max", what="list"):
+    """[A] max / min over a sequence of symbolic length by its measure (the values themselves, or `key=`): the index `a` of
+    the FIRST extreme entry:  0 <= a < len,  forall i: measure(i) <= measure(a),  forall i < a: measure(i) < measure(a)
+    (dually for min).  Empty sequence: ValueError.  -> index term a"""
+    from .interp import RaiseEx
+    from . import models
+
+    models.used(f"{which}() over a symbolic-length {what}: index of the first extreme entry (quantified characterisation)")
+    path = interp.path
+    L = to_z3(length)
+    if not path.decide(L > 0):
+        raise RaiseEx("ValueError", f"{which}() arg is an empty sequence")
+    c = path.counter.get("argx", 0)
+    path.counter["argx"] = c + 1
+    a, q = z3.Int(f"arg{which}!{c}"), z3.Int(f"argq!{c}")
+    le = (lambda x, y: x <= y) if which == "max" else (lambda x, y: x >= y)
+    lt = (lambda x, y: x < y) if which == "max" else (lambda x, y: x > y)
+    ma = as_int_term(measure(a))
+    path.assume(z3.And(a >= 0, a < L))
+    path.assume(z3.ForAll([q], z3.Implies(z3.And(q >= 0, q < L), le(as_int_term(measure(q)), ma))))
+    path.assume(z3.ForAll([q], z3.Implies(z3.And(q >= 0, q < a), lt(as_int_term(measure(q)), ma))))
+    path.ghost.setdefault("extremes", []).append(dict(index=a, which=which, length=L, measure=measure))
+    return a
+
+
+def dict_lookup(interp, d: SymDict, key):
+    from .interp import Undecided
+
+    kid = to_z3(key).get_id()
+    if kid in d.known:
+        return d.val(d.known[kid])
+    raise Undecided("lookup in a dict of symbolic size with a key that was not obtained from it")
